@@ -154,4 +154,13 @@ U(name="U.dep.inject", harness="harness/dep_inject.c", mode="D", enforce="polyse
   replace=["polyseed_get_num_langs", "polyseed_get_lang", "polyseed_lang_check"],
   functions=["polyseed_inject"], props=["C18", "C13", "C20"])
 
+for kind in ("STR", "PREFIX", "STR_NOACCENT", "PREFIX_NOACCENT"):
+    U(name="B.cmp." + kind.lower() + ".big", harness="harness/cmp_func.c", mode="P", defines=["CMP_" + kind, "KEYB=14", "ELMB=11"], unwind=16, quick=False,
+      bounded="key <= 13 bytes, list element <= 10 bytes (all byte values); loops unrolled to those lengths",
+      functions=["compare_" + kind.lower()], chars=("signed", "unsigned"), props=["C08", "C19"], timeout=3000)
+
+U(name="B.str.nfkd_lazy", harness="harness/str_nfkd_lazy_b.c", mode="P", unwind=12,
+  bounded="strings of at most 9 bytes (all byte values); no woven text, so it also decides refactored loops",
+  functions=["utf8_nfkd_lazy"], chars=("signed", "unsigned"), props=["C19", "C14"])
+
 BY_NAME = {u.name: u for u in UNITS}
